@@ -9,8 +9,10 @@ EXTENDS Integers, Sequences, FiniteSets, TLC, Json, IOUtils
 
 Input == JsonDeserialize(IOEnv.TRACE_FILE)
 Traces == Input.traces
-NArgs == 6
-F == <<<<3>>, <<5>>, <<3, 5>>, <<3, 7>>, <<-1>>, <<-3>>>>   \* x -> 2x+1 on 1.0, 2.0, [1,2], [1,3], -1.0, -2.0
+NArgs == 9
+(* x -> 2x+1 on 1.0, 2.0, [1,2], [1,3], -1.0, -2.0, and on arrays that BROADCAST to an earlier argument without being *)
+(* it: the empty array, the one-element array [1] and the constant array [1,1] (next to the scalar 1.0)              *)
+F == <<<<3>>, <<5>>, <<3, 5>>, <<3, 7>>, <<-1>>, <<-3>>, <<>>, <<3>>, <<3, 3>>>>
 MaxOps == 0
 VARIABLES tid, l, ws
 U == INSTANCE HgUserFcn WITH w <- ws, applied <- {}, n <- 0, lastret <- <<>>, lastarg <- 0
